@@ -191,7 +191,7 @@ pub fn run(seed: u64, count: u64, out: &mut dyn Write, stats: &mut Stats) {
             None => continue,
         };
         for k in 0..ntx {
-            let tx = gen::gen_step(&runner.world, &mut r, &mut g, k, stats);
+            let tx = gen::gen_step_safe(&runner.world, &mut r, &mut g, k, stats);
             let res = runner.step(&tx, out, stats);
             g.feedback(&tx, &res);
         }
@@ -214,7 +214,7 @@ pub fn run_fault(seed: u64, count: u64, out: &mut dyn Write, stats: &mut Stats) 
             None => continue,
         };
         for k in 0..ntx {
-            let tx = gen::gen_step(&runner.world, &mut r, &mut g, k, stats);
+            let tx = gen::gen_step_safe(&runner.world, &mut r, &mut g, k, stats);
             let mut final_res: Option<TxResult> = None;
             if let Some(start) = tx.msg.fault_start() {
                 for j in start..=FAULT_CAP {
@@ -273,7 +273,7 @@ pub fn run_twin(seed: u64, count: u64, out: &mut dyn Write, stats: &mut Stats) {
         };
         for k in 0..ntx {
             let in_sync = comparable(&a.last_body) == comparable(&b.last_body);
-            let tx = gen::gen_step(&a.world, &mut r, &mut g, k, stats);
+            let tx = gen::gen_step_safe(&a.world, &mut r, &mut g, k, stats);
             let ra = a.step(&tx, out, stats);
             let pulled: u128 = if ra.ok { ra.xf.iter().filter(|x| x.0 == tx.snd && x.1 != tx.snd).map(|x| x.2).sum() } else { 0 };
             let mut tb = tx.clone();
